@@ -24,6 +24,7 @@ rather than reported, because it would be about operator semantics, not about ho
 
 from __future__ import annotations
 
+import json
 import sys
 from typing import Any, Dict, List, Optional, Tuple
 
@@ -426,6 +427,12 @@ class Model:
         self.prog = prog
         self.must: List[Any] = []
         self.may: List[Any] = []
+        # names called in the body of a macro whose *range* is already an error: an implementation
+        # that carries errors as values (CompiledRunner: an error value of ?: / && / || held by a
+        # list literal) may still run the body over the remaining elements before the error
+        # surfaces; the statement does not fix how far a doomed evaluation goes on (same reason as
+        # `may` for the siblings of an erroring operand).  Arguments must still be proper values.
+        self.may_names: set = set()
 
     def run(self) -> Any:
         return self.ev(self.prog["ast"], {}, True, False)
@@ -524,6 +531,8 @@ class Model:
         if k == "map":
             lst = self.ev(node[1], env, rec, may)
             if lst == ERR:
+                if rec:
+                    self._doomed_body(node[3])
                 return ERR
             silent = [self.ev(node[3], dict(env, **{node[2]: x}), False, may) for x in lst[1]]
             any_err = any(v == ERR for v in silent)
@@ -536,6 +545,8 @@ class Model:
         if k in ("filter", "exists_one"):
             lst = self.ev(node[1], env, rec, may)
             if lst == ERR:
+                if rec:
+                    self._doomed_body(node[3])
                 return ERR
             silent = [self.ev(node[3], dict(env, **{node[2]: x}), False, may) for x in lst[1]]
             any_err = any(v == ERR for v in silent)
@@ -550,6 +561,8 @@ class Model:
         if k in ("all", "exists"):
             lst = self.ev(node[1], env, rec, may)
             if lst == ERR:
+                if rec:
+                    self._doomed_body(node[3])
                 return ERR
             decider = k == "exists"
             silent = [self.ev(node[3], dict(env, **{node[2]: x}), False, may) for x in lst[1]]
@@ -566,6 +579,18 @@ class Model:
                 return ERR
             return ["BoolType", not decider]
         raise ValueError(k)
+
+    def _doomed_body(self, body: Any) -> None:
+        def walk(n: Any) -> None:
+            if isinstance(n, list):
+                if n and n[0] == "call":
+                    self.may_names.add(n[1])
+                if n and n[0] == "add" and "_+_" in self.prog.get("ops", []):
+                    self.may_names.add("_+_")
+                for c in n:
+                    walk(c)
+
+        walk(body)
 
     def strict(self, nodes: List[Any], env: Dict[str, Any], rec: bool, may: bool) -> List[Any]:
         """Operands of a strict operator / arguments of a call: once one of them is an error the
@@ -745,8 +770,14 @@ def execute(trace: Dict[str, Any]) -> Dict[str, Any]:
         seen: Dict[str, int] = {}
         for c in got_calls:
             seen[_key(c)] = seen.get(_key(c), 0) + 1
-        unknown = [c for c in got_calls if _key(c) not in pool]
-        repeated = [c for c in got_calls if _key(c) in pool and seen[_key(c)] > pool[_key(c)]]
+        def doomed(c: Any) -> bool:
+            # a call made by a macro body whose range had already failed (Model.may_names), with
+            # proper values as arguments
+            return c[0] in model.may_names and "CELEvalError" not in json.dumps(c[1])
+
+        unknown = [c for c in got_calls if _key(c) not in pool and not doomed(c)]
+        repeated = [c for c in got_calls if _key(c) in pool and seen[_key(c)] > pool[_key(c)]
+                    and not doomed(c)]
         missing = [c for c in must if seen.get(_key(c), 0) < need[_key(c)]]
         if not model_agrees:
             # which calls are reached follows from the model's evaluation; where the library's
